@@ -86,6 +86,16 @@ asn1f_pull_components_of(arg_t *arg) {
 		 * into the current one.
 		 */
 		while((memb = TQ_REMOVE(&(coft->members), next))) {
+			/*
+			 * The tagging default is that of the module which
+			 * defines the referenced type, not of this one.
+			 */
+			if(memb->tag.tag_class != TC_NOCLASS
+			&& memb->tag.tag_mode == TM_DEFAULT) {
+				if(WITH_MODULE(terminal->module,
+					_asn1f_fix_type_tag(arg, memb)))
+					r_value = -1;
+			}
 			TQ_ADD(&list, memb, next);
 			memb->parent_expr = expr;
 		}
